@@ -56,6 +56,9 @@ type evaluator struct {
 	steps    int
 	fail     string // first reason an evaluation failed
 	panicked bool   // an inlined callee ended in a panic
+	// visit, when set, sees every call instruction the walker passes (in order); library calls whose
+	// result is not used are then walked as statements, so that their effects are seen too
+	visit func(fr *evalFrame, call *ssa.Call)
 }
 
 func (fr *evalFrame) resolve(v ssa.Value) ssa.Value {
@@ -564,6 +567,21 @@ func (ev *evaluator) runFrame(fr *evalFrame, start *ssa.BasicBlock, stop func(b 
 							fr.vals[x] = v
 						} else {
 							fr.vals[x] = unknownValue{}
+						}
+					}
+				}
+			case *ssa.Call:
+				if ev.visit != nil {
+					ev.visit(fr, x)
+					callee := x.Common().StaticCallee()
+					if refs := x.Referrers(); callee != nil && (refs == nil || len(*refs) == 0) && ev.inline != nil && callee.Blocks != nil && ev.inline(callee) {
+						if _, handled := ev.leaf(fr, x); !handled {
+							if _, outcome := ev.run(callee, fr, x, nil, nil); outcome == "panic" {
+								return nil, "panic"
+							} else if outcome != "return" {
+								ev.setFail("statement call not walkable: " + fname(callee))
+								return nil, "fail"
+							}
 						}
 					}
 				}
